@@ -43,7 +43,20 @@ func partCCases() []PartC {
 	// chunked writer that has already written): nothing behind the caller may be entered and IsAborted() is true afterwards
 	for _, api := range abortAPIs {
 		for _, st := range []string{"plain", "body-set", "hijack-written"} {
-			out = append(out, PartC{Kind: "abort-family", Place: st, Beh: api})
+			// N: the status code handed to the members that take one (statuses without a body included)
+			for _, code := range []int{403, 204, 304, 200, 500} {
+				if api == "Abort" && code != 403 {
+					continue
+				}
+				out = append(out, PartC{Kind: "abort-family", Place: st, Beh: api, N: code})
+			}
+		}
+	}
+	// the chain is replaced through the exported SetHandlers while it runs (a middleware appends an after-hook, cuts the
+	// tail, or stores the same chain again - also after Abort): nobody is entered twice, an Abort stays an Abort
+	for _, b := range []string{"append", "cut", "same", "same-after-abort", "append-after-abort"} {
+		for _, at := range []string{"first", "middle", "last-middleware"} {
+			out = append(out, PartC{Kind: "set-handlers", Place: at, Beh: b})
 		}
 	}
 	for _, n := range []int{61, 62, 63, 64, 65, 70, 127, 128, 200} {
@@ -93,6 +106,10 @@ func execPartC(c *mc.Ctx, pc PartC, cs Case) {
 	}
 	if pc.Kind == "server" {
 		serverChain(pc, fail)
+		return
+	}
+	if pc.Kind == "set-handlers" {
+		setHandlers(pc, fail)
 		return
 	}
 	if pc.Kind == "alias-use" {
@@ -236,6 +253,10 @@ var noPoolMu sync.Mutex
 var abortAPIs = []string{"Abort", "AbortWithStatus", "AbortWithMsg", "AbortWithStatusJSON", "AbortWithError"}
 
 func abortFamily(pc PartC, fail func(kind, msg string)) {
+	code := pc.N
+	if code == 0 {
+		code = 403
+	}
 	s := srvh.New(srvh.Opts{})
 	var entered []string
 	aborted := false
@@ -260,13 +281,13 @@ func abortFamily(pc PartC, fail func(kind, msg string)) {
 		case "Abort":
 			ctx.Abort()
 		case "AbortWithStatus":
-			ctx.AbortWithStatus(403)
+			ctx.AbortWithStatus(code)
 		case "AbortWithMsg":
-			ctx.AbortWithMsg("refused", 403)
+			ctx.AbortWithMsg("refused", code)
 		case "AbortWithStatusJSON":
-			ctx.AbortWithStatusJSON(403, map[string]string{"e": "refused"})
+			ctx.AbortWithStatusJSON(code, map[string]string{"e": "refused"})
 		case "AbortWithError":
-			ctx.AbortWithError(403, errors.New("refused")) //nolint:errcheck
+			ctx.AbortWithError(code, errors.New("refused")) //nolint:errcheck
 		}
 		aborted = ctx.IsAborted()
 		ctx.Next(c) // a no-op after Abort
@@ -279,7 +300,95 @@ func abortFamily(pc PartC, fail func(kind, msg string)) {
 		return
 	}
 	if got := strings.Join(entered, " "); got != "mw1 aborter" || !aborted {
-		fail("chain", fmt.Sprintf("a middleware calling %s (response state %s) - handlers entered [%s], IsAborted() afterwards = %v; expected [mw1 aborter] and true", pc.Beh, pc.Place, got, aborted))
+		fail("chain", fmt.Sprintf("a middleware calling %s (status %d, response state %s) - handlers entered [%s], IsAborted() afterwards = %v; expected [mw1 aborter] and true", pc.Beh, code, pc.Place, got, aborted))
+	}
+}
+
+// setHandlers: the middleware named by pc.Place replaces the chain through SetHandlers while the chain runs.
+func setHandlers(pc PartC, fail func(kind, msg string)) {
+	s := srvh.New(srvh.Opts{})
+	var entered []string
+	mk := func(name string) app.HandlerFunc {
+		return func(c context.Context, ctx *app.RequestContext) {
+			if len(entered) > 200 {
+				return // a chain that restarts for ever: enough has been seen
+			}
+			entered = append(entered, name+"-in")
+			ctx.Next(c)
+			entered = append(entered, name+"-out")
+		}
+	}
+	actor := func(c context.Context, ctx *app.RequestContext) {
+		if len(entered) > 200 {
+			return
+		}
+		entered = append(entered, "actor-in")
+		hs := ctx.Handlers()
+		switch pc.Beh {
+		case "append":
+			ctx.SetHandlers(append(append(app.HandlersChain{}, hs...), mk("hook")))
+		case "cut":
+			ctx.SetHandlers(hs[:len(hs)-1])
+		case "same":
+			ctx.SetHandlers(hs)
+		case "same-after-abort":
+			ctx.Abort()
+			ctx.SetHandlers(hs)
+		case "append-after-abort":
+			ctx.Abort()
+			ctx.SetHandlers(append(append(app.HandlersChain{}, hs...), mk("hook")))
+		}
+		ctx.Next(c)
+		entered = append(entered, "actor-out")
+	}
+	var before, after []string
+	switch pc.Place {
+	case "first":
+		s.E.Use(actor, mk("m1"), mk("m2"))
+		after = []string{"m1", "m2"}
+	case "middle":
+		s.E.Use(mk("m1"), actor, mk("m2"))
+		before, after = []string{"m1"}, []string{"m2"}
+	default:
+		s.E.Use(mk("m1"), mk("m2"), actor)
+		before = []string{"m1", "m2"}
+	}
+	s.E.GET("/r", mk("h1"), mk("h2"))
+	after = append(after, "h1", "h2")
+	switch pc.Beh {
+	case "append":
+		after = append(after, "hook")
+	case "cut":
+		after = after[:len(after)-1]
+	case "same-after-abort", "append-after-abort":
+		after = nil
+	}
+	var want []string
+	for _, n := range before {
+		want = append(want, n+"-in")
+	}
+	want = append(want, "actor-in")
+	for _, n := range after {
+		want = append(want, n+"-in")
+	}
+	for i := len(after) - 1; i >= 0; i-- {
+		want = append(want, after[i]+"-out")
+	}
+	want = append(want, "actor-out")
+	for i := len(before) - 1; i >= 0; i-- {
+		want = append(want, before[i]+"-out")
+	}
+	s.Start()
+	res := s.Run([][]byte{[]byte("GET /r HTTP/1.1\r\nHost: h\r\n\r\n")}, netsim.EndEOF, nil)
+	if res.Panic != nil {
+		fail("panic", fmt.Sprintf("panic while serving: %v", res.Panic))
+		return
+	}
+	if len(entered) > 60 {
+		entered = append(entered[:60], "...")
+	}
+	if got := strings.Join(entered, " "); got != strings.Join(want, " ") {
+		fail("chain", fmt.Sprintf("the %s middleware replaces the running chain through SetHandlers (%s): trace [%s], expected [%s]", pc.Place, pc.Beh, got, strings.Join(want, " ")))
 	}
 }
 
